@@ -4,6 +4,7 @@ package simctx
 
 import (
 	"context"
+	"errors"
 	"time"
 )
 
@@ -15,6 +16,22 @@ type Ctx struct {
 	fired     bool
 	done      chan struct{}
 	DoneCalls int
+	// cause-carrying flavour (context.WithCancelCause): inner is cancelled
+	// synchronously, with an application error as cause, at the firing poll;
+	// context.Cause(c) then returns that cause while Err() is context.Canceled
+	inner  context.Context
+	cancel context.CancelCauseFunc
+}
+
+// ErrAppCause is the cause recorded by the cause-carrying flavour.
+var ErrAppCause = errors.New("application shutting down")
+
+// NewWithCause is New(fireAt, context.Canceled) for a context created by
+// context.WithCancelCause and cancelled with an application error.
+func NewWithCause(fireAt int) *Ctx {
+	c := New(fireAt, context.Canceled)
+	c.inner, c.cancel = context.WithCancelCause(context.Background())
+	return c
 }
 
 func New(fireAt int, e error) *Ctx { return &Ctx{FireAt: fireAt, E: e, done: make(chan struct{})} }
@@ -32,6 +49,9 @@ func (c *Ctx) fire() {
 	if !c.fired {
 		c.fired = true
 		close(c.done)
+		if c.cancel != nil {
+			c.cancel(ErrAppCause)
+		}
 	}
 }
 
@@ -56,7 +76,12 @@ func (c *Ctx) Err() error {
 	return nil
 }
 
-func (c *Ctx) Value(any) any { return nil }
+func (c *Ctx) Value(key any) any {
+	if c.inner != nil {
+		return c.inner.Value(key) // lets context.Cause find the cancelCtx that carries the cause
+	}
+	return nil
+}
 
 // Fired reports whether the library observed the cancellation.
 func (c *Ctx) Fired() bool { return c.fired }
